@@ -10,20 +10,27 @@ from harness.common import VERIF, Ck, coq_list, coq_str, parse_coq_N_list, parse
 from translate import c02_tables
 
 MANIFEST = dict(
-    technique='Rocq proof generic over the escape tables (induction over the string; tables regenerated from tokenizer.py '
-              'and their side conditions kernel-checked) + exhaustive code-point / small-scope correspondence + oracle search',
+    technique='Rocq proof generic over the escape tables (induction over the string; tables AND the shape of escape_text regenerated '
+              'from tokenizer.py, side conditions kernel-checked) + exhaustive code-point / small-scope correspondence + in-kernel '
+              'small-scope enumeration of the model of the code + oracle search',
     text='Theorems in Props/C02.v, for every string (list of code points), both multiline modes, every option vector with '
          'allow_escapes, any starting line and any text following the closing quote: tokenizing DQ+escape(s)+DQ yields exactly '
          'STRING s then EOF for ever (flat input and the chunked reader state of the real class, any chunking); the escaped '
          'text decomposes into raw characters and backslash+symbol units whose raw units are never a double quote or CR, and '
-         'in single-line mode contains no LF/CR at all. The theorems are generic over the tables; the conditions '
+         'in single-line mode contains no LF/CR at all. escape_text itself is translated into a pipeline of whole-string steps '
+         '(regex substitution with the table callback, str.replace, each conditional on multiline); if the steps of a mode are '
+         'exactly one substitution (obligation escape_text_is_one_table_substitution_*) the pipeline IS the per-character model '
+         '(c02_escape_text_is_charwise) and the inverse law holds for the function as written (c02_escape_text_tokenize_inverse); a '
+         'post-processing pipeline is refuted by a computed witness. The theorems are generic over the tables; the conditions '
          '(every escape decodes back, no symbol is a line feed, DQ/CR/backslash always escaped, LF escaped in single-line mode, '
          'DQ is not an operator) are discharged by vm_compute for the tables regenerated from the source on every run. '
-         'escape_text is compared with the model on every code point 0..0x10FFFF in both modes and on all strings over the '
-         '14-character escape alphabet up to length 4; the string-reading loop of the model is compared with the real '
-         'Tokenizer on every text DQ+w, w over that alphabet up to length 4, with and without escapes.',
+         'The model of the code (pipeline + tokenizer model) is enumerated inside Coq on all strings over the 14-character escape '
+         'alphabet up to length 3 (any counterexample is replayed on the implementation); escape_text is compared with the model on '
+         'every code point 0..0x10FFFF in both modes and on all strings over that alphabet up to length 4; the string-reading '
+         'loop of the model is compared with the real Tokenizer on every text DQ+w, w up to length 4, with and without escapes.',
     note='Trusted: Coq kernel + vm_compute (incl. primitive Uint63 for checksums), translate/c02_tables.py, the hand model '
-         'Text/Tokenizer.v of _handle_string/_get_token (tied by exhaustive small-scope differential runs), CPython re/str. '
+         'Text/Tokenizer.v of _handle_string/_get_token (tied by exhaustive small-scope differential runs), CPython re/str '
+         '(a regex that is an alternation of single characters substitutes per character; str.replace is leftmost non-overlapping). '
          'The Cython twins (_tokenizer.pyx) cannot be built here and are not covered. Embedding in VMF/BSP/DMX files is '
          'covered only through the compositional theorem (any rest of input) and Tokenizer/Keyvalues.parse-level search.',
 )
